@@ -142,6 +142,25 @@ def wfBuild (x : Gff) : Bool :=
   && x.seq.all seqChar
   && x.features.all (wfFeature x.locusName)
 
+/-- the property's quantifier for a record given to `gff.Build`, as worded ("seqids free of white
+space"): `wfFeature` / `wfBuild` WITHOUT the clause that a seqid does not begin with `#`.  On such
+a seqid the round trip loses the feature (known finding C14-hash-seqid); `parse_build` is proved
+under `wfBuild`, the judge's domain is `wfBuildQ`. -/
+def wfFeatureQ (locus : Str) (f : Feature) : Bool :=
+  wfCol f.name && wfCol locus
+  && wfCol f.source && wfCol f.type && wfCol f.score && wfCol f.strand && wfCol f.phase
+  && inInt f.start && inInt (f.start + 1) && inInt f.stop && wfAttrs f.attrs
+
+def wfBuildQ (x : Gff) : Bool :=
+  free [' ', '\n', '\r'] (regionName x) && free ['\n', '\r'] x.name && free [' ', '\n', '\r'] x.gffVersion
+  && inInt x.regionStart && inInt x.regionEnd
+  && x.seq.all seqChar
+  && x.features.all (wfFeatureQ x.locusName)
+
+/-- some feature is written with a seqid (for an empty seqid: Locus.Name) that begins with `#` -/
+def hashSeqid (x : Gff) : Bool :=
+  x.features.any fun f => hasPrefix sHash1 (if f.name ≠ [] then f.name else x.locusName)
+
 /-- a feature line of a document given to the independent writer -/
 def wfFeatLine (f : FeatLine) : Bool :=
   wfCol f.seqid && !hasPrefix sHash1 f.seqid
